@@ -158,6 +158,12 @@ def build_data(sc):
     if sc.get('kind') == 'als_func':
         # the functional version has no slice-coverage requirement: exactly m points (m may equal the number of basis functions)
         X = g.uniform(sc['ab'][0], sc['ab'][1], (m, d))
+        if sc['dseed'] % 4 == 0:
+            # gridded data: many training points share a coordinate value in some dimension (a few dimensions only, or all)
+            pts = np.linspace(sc['ab'][0], sc['ab'][1], 4 + sc['dseed'] % 3)
+            for k in range(d):
+                if k == 0 or (sc['dseed'] >> (3 + k)) % 2:
+                    X[:, k] = pts[np.argmin(np.abs(X[:, k][:, None] - pts[None, :]), axis=1)]
         rows = None
     if rows is not None and sg is not None:
         k, j = sg['mode'], sg['index']
